@@ -437,15 +437,25 @@ void check_index_map()
         return counter++;
       }})
                       : im[i];
-      // reference: missing elements up to the index are created (get: with insert(), []: with int())
-      int model_counter = counter - calls;
-      while (model.size() <= i)
-        model.push_back(is_get ? model_counter++ : 0);
-      grew_by_many = grew_by_many || model.size() - before >= 2;
-      VRT_CHECK(!is_get || model_counter == counter, name + ":insert_calls", "step %zu: insert called %d times, %zu elements were missing",
-                step, calls, model.size() - before);
-      VRT_CHECK(im.impl() == model, name + ":contents", "step %zu: contents %s want %s", step, show(im.impl()).c_str(),
-                show(model).c_str());
+      // documented: "Returns the element at index. If there is no such element, the result of insert() is inserted. Note
+      // that insert might be called multiple times" ([]: "T() is inserted"): the container grows to index+1, existing
+      // elements stay, every new element is a result of insert() (resp. T()).  How often insert() is called and which
+      // result lands where is not documented: information counters only.
+      std::size_t const want_size = std::max(before, i + 1);
+      std::vector<int> const &now = im.impl();
+      bool ok = now.size() == want_size && std::equal(model.begin(), model.end(), now.begin());
+      bool sequential = true;
+      for (std::size_t j = before; ok && j < now.size(); ++j)
+      {
+        ok = is_get ? (now[j] >= counter - calls && now[j] < counter) : now[j] == 0;
+        sequential = sequential && (!is_get || now[j] == counter - calls + static_cast<int>(j - before));
+      }
+      VRT_CHECK(ok, name + ":contents", "step %zu: contents %s after %s, insert() produced %d..%d", step, show(now).c_str(),
+                show(model).c_str(), counter - calls, counter - 1);
+      if (is_get && (static_cast<std::size_t>(calls) != want_size - before || !sequential))
+        vrt::count("info:index_map:insert_calls_or_order");
+      grew_by_many = grew_by_many || want_size - before >= 2;
+      model = now;
       VRT_CHECK(&r == &im.impl()[i], name + ":reference", "step %zu: result is not element %zu", step, i);
       r = 50 + static_cast<int>(step);
       model[i] = 50 + static_cast<int>(step);
